@@ -67,6 +67,21 @@ func checkC15(c *Ctx) {
 	checkExternalNamesQualified(c, "C15.f", f)
 	checkLexerVsTypeSyntax(c, "C15.g", f)
 	checkBaseNameTables(c, "C15.h", f)
+	// the explicit-type-argument position: `<` directly after a name starts a type list, whatever token the first type begins with
+	c.expectNF(f, "C15.e", "mightParseSpecifiedTypeList", []string{"if(psCurIs(var:New_TokenType_LT, p1), (psConsume(var:New_TokenType_GT, #0(parseTypeList(p0, psConsume(var:New_TokenType_LT, p1)))), #1(parseTypeList(p0, psConsume(var:New_TokenType_LT, p1)))), (p1, emptyFtps()))"},
+		"at `<` a comma-separated list of full types up to `>` is parsed; otherwise no type arguments")
+	if nf, fn := f.NF("parseVarRef"); fn != nil {
+		pos := c.Pos(f.M.Fset, fn.Decl.Pos())
+		a := strings.Contains(nf, "if(psIsNeighborLT(p0), mightParseSpecifiedTypeList(parseType, psNext(p0)), (psNext(p0), emptyFtps()))")
+		b := strings.Contains(nf, "mightParseSpecifiedTypeList(parseType, #0(parseFullName(p0)))")
+		n := strings.Count(nf, "psIsNeighborLT(")
+		r.Check(a && b, "C15.e", "parseVarRef", "type-arguments-attempted", pos,
+			"after a plain name the type list is attempted exactly when `<` is adjacent; after a qualified name always — no further condition on how the first type begins",
+			"the condition under which explicit type arguments are parsed is no longer the adjacency test alone: a type list whose first type begins with some token (a `[`, a `(`, a particular name) is not recognised and `<` is left to the comparison operator")
+		_ = n
+	} else {
+		r.Undecided("C15.e", "parseVarRef", "definition", "fc", "anchor function not found")
+	}
 	checkC15Atom(c, f)
 }
 
